@@ -137,6 +137,10 @@ func c18Run(i, n, bad int) {
 			verifAssert(changed, "repair-reported:"+c18Path(i))
 		}
 		c18CheckChain(chain, n, c18Path(i))
+		if chain2 != nil {
+			// a too-deep chain in one element is reported, the other elements are still repaired
+			c18CheckChain(chain2, 1, c18Path(i)+"(second element, next to a too-deep chain)")
+		}
 		return
 	}
 	verifAssert(err == nil, "no-error-within-supported-depth:"+c18Path(i))
